@@ -287,6 +287,15 @@ class Closed:
                 t = self.tag(base, st)
                 self.require('i', e, t, 'acceptance decision `{}`'.format(u(e)), ok_tags=(C,))
                 n += 1
+            # (i') acceptance decision delegated to a local helper:  def is_accepting(q): return not q.isdisjoint(N.F)
+            if isinstance(e, ast.Call) and isinstance(e.func, ast.Name) and e.func.id in self.f.nested and len(e.args) == 1:
+                g = self.f.nested[e.func.id]
+                ps = [p for p in g.params if p != 'self']
+                if len(ps) == 1 and any(isinstance(x, ast.Call) and isinstance(x.func, ast.Attribute) and x.func.attr == 'isdisjoint' and isinstance(x.func.value, ast.Name) and x.func.value.id == ps[0]
+                                        and x.args and u(x.args[0]).endswith('.F') for x in ast.walk(g.node)):
+                    st, nid = self.state_at(e)
+                    self.require('i', e, self.tag(e.args[0], st), 'acceptance decision `{}` (through the local helper {})'.format(u(e), g.name))
+                    n += 1
             # (ii) symbol steps
             if isinstance(e, ast.Call) and self.ctx.callee_name(self.f, e) in STEPS and len(e.args) >= 3:
                 st, nid = self.state_at(e)
